@@ -161,6 +161,23 @@ func childTTY(args []string) int {
 			return msg
 		}))
 	}
+	if strings.Contains(mode, "stalecmd") {
+		// hold the SECOND size query (a WindowSize command's; the first is the listener's initial
+		// one) after it has read the size, until the gate file exists
+		var calls int32
+		tea.VerifPauseHook = func(where string) {
+			if strings.HasPrefix(where, "checkResize") && atomic.AddInt32(&calls, 1) == 2 {
+				m.logf("paused")
+				for {
+					if _, err := os.Stat(gate); err == nil {
+						break
+					}
+					time.Sleep(2 * time.Millisecond)
+				}
+				m.logf("resumed")
+			}
+		}
+	}
 	if strings.Contains(mode, "stalesize") {
 		// hold the FIRST size query (the start-up one) after it has read the size, until the
 		// gate file exists; later queries pass
@@ -488,6 +505,7 @@ func scenPty(out *scenOut, rr *rng, thorough bool) {
 		defer wg.Done()
 		defer func() { <-sem }()
 		ptyStaleSize(out)
+		ptyStaleCommandQuery(out)
 		ptyResizeAfterExec(out)
 		ptySizeWithPipeInput(out)
 		for _, mode := range []string{"default", "default-alt"} {
@@ -1233,5 +1251,44 @@ func ptyResizeWhileUpdateBusy(out *scenOut) {
 	select {
 	case <-r.exited:
 	case <-time.After(3 * time.Second):
+	}
+}
+
+// ptyStaleCommandQuery: a WindowSize command's query has read 80x24 and is held on its way to the
+// event loop; the terminal is resized to 100x30 (the listener's query overlaps the held one); the
+// held report is delivered. When everything is quiet the size Update saw LAST is the true one:
+// overlapping queries are ordered, none is dropped (C18; the model's `C18L_quiescent_last_is_true`).
+func ptyStaleCommandQuery(out *scenOut) {
+	desc := "a WindowSize command's query held after reading 80x24; resize to 100x30 while it is held; then it is delivered"
+	r, err := startPtyChild("default-stalecmd", 80, 24)
+	if err != nil {
+		return
+	}
+	defer r.cleanup()
+	if !r.waitLog("size ", 5*time.Second) {
+		return
+	}
+	time.Sleep(40 * time.Millisecond)
+	r.pair.master.Write([]byte("w"))
+	if !r.waitLog("paused", 3*time.Second) {
+		out.record("stale-command-query/not-reached", desc)
+		return
+	}
+	setWinsize(r.pair.master, 100, 30)
+	time.Sleep(80 * time.Millisecond) // the listener has taken the signal and asked for the size
+	os.WriteFile(r.gate, []byte("x"), 0o644)
+	r.waitLog("resumed", 2*time.Second)
+	ok := waitFor(2*time.Second, func() bool { s := r.sizes(); return len(s) > 0 && s[len(s)-1] == "100 30" })
+	time.Sleep(60 * time.Millisecond)
+	got := r.sizes()
+	out.record("stale-command-query", desc+" -> "+strings.Join(got, ", "))
+	r.pair.master.Write([]byte("q"))
+	select {
+	case <-r.exited:
+	case <-time.After(3 * time.Second):
+	}
+	if !ok || len(got) == 0 || got[len(got)-1] != "100 30" {
+		out.fail(finding{Property: "C18", Class: "new", What: "a resize that overlapped another size query was never reported (or a stale size was delivered after it): the size Update saw last is not the terminal's true size", Input: desc,
+			Expected: "last size 100 30", Observed: strings.Join(got, ", ")})
 	}
 }
